@@ -4,9 +4,77 @@ package main
 // easier to state operationally than as a contract. Everything here is part
 // of the trusted base and listed in the evidence.
 
+import (
+	"go/token"
+	"go/types"
+)
+
 func (w *World) initModels() {
 	w.models = map[string]modelFn{}
 	w.modelTargets = map[string]func(c *Ctx) []havocTarget{}
+	hdrTargets := func(c *Ctx) []havocTarget {
+		mt := types.NewMap(types.Typ[types.String], types.NewSlice(types.Typ[types.String]))
+		d, v := c.mapHeaps(mt)
+		h, _ := c.memHeap(types.Typ[types.String])
+		return []havocTarget{{d, ""}, {v, ""}, {"MapLen", ""}, {h, ""}, {allocHeap, ""}}
+	}
+	// http.Header is map[string][]string keyed by the canonical form of the
+	// field name (uninterpreted function canonHeader, idempotent).
+	canon := func(c *Ctx, k string) string {
+		c.declFun("canonHeader", []string{"Str"}, "Str")
+		t := "(canonHeader " + k + ")"
+		c.assert("(= (canonHeader " + t + ") " + t + ")")
+		return t
+	}
+	w.models["net/http.(Header).Set"] = func(f *Frame, args []Val, rt types.Type, st *State, pos token.Pos) Val {
+		c := f.c
+		m, k, v := args[0], args[1], args[2]
+		mt := m.Typ.Underlying().(*types.Map)
+		key := canon(c, k.T)
+		// value: fresh one-element slice
+		r := c.newRef(st, "hdrval")
+		h, srt := c.memHeap(types.Typ[types.String])
+		c.heapSet(st, h, "(store "+c.heapGet(st, h, srt)+" "+r+" (store ((as const (Array "+c.idxSort()+" Str)) "+c.strLit("")+") "+c.idxLit(0)+" "+v.T+"))")
+		f.mapStore(st, mt, m.T, key, c.mkSlice(r, c.idxLit(0), c.idxLit(1), c.idxLit(1)), pos)
+		return Val{Typ: rt}
+	}
+	w.modelTargets["net/http.(Header).Set"] = hdrTargets
+	w.models["net/http.(Header).Get"] = func(f *Frame, args []Val, rt types.Type, st *State, pos token.Pos) Val {
+		c := f.c
+		m, k := args[0], args[1]
+		mt := m.Typ.Underlying().(*types.Map)
+		key := canon(c, k.T)
+		d, vh := c.mapHeaps(mt)
+		dom := and(not(eq(m.T, "0")), "(select (select "+c.heapGet(st, d, c.heapSort[d])+" "+m.T+") "+key+")")
+		sl := "(select (select " + c.heapGet(st, vh, c.heapSort[vh]) + " " + m.T + ") " + key + ")"
+		h, srt := c.memHeap(types.Typ[types.String])
+		first := "(select (select " + c.heapGet(st, h, srt) + " (sl.base " + sl + ")) (sl.off " + sl + "))"
+		t := c.name("hdrget", ite(and(dom, c.ilt(c.idxLit(0), "(sl.len "+sl+")")), first, c.strLit("")), "Str")
+		c.assume(f.curGuard, c.strFacts(t))
+		return Val{T: t, Typ: rt}
+	}
+	w.modelTargets["net/http.(Header).Get"] = func(c *Ctx) []havocTarget { return nil }
+	w.models["net/http.CanonicalHeaderKey"] = func(f *Frame, args []Val, rt types.Type, st *State, pos token.Pos) Val {
+		t := canon(f.c, args[0].T)
+		f.c.assume(f.curGuard, f.c.strFacts(t))
+		return Val{T: t, Typ: rt}
+	}
+	w.modelTargets["net/http.CanonicalHeaderKey"] = func(c *Ctx) []havocTarget { return nil }
+}
+
+// mapStore performs m[k] = v with exact domain and length bookkeeping.
+func (f *Frame) mapStore(st *State, mt *types.Map, m, k, v string, pos token.Pos) {
+	c := f.c
+	d, vh := c.mapHeaps(mt)
+	f.frameCheck(d, m, pos, "mapupdate")
+	dh := c.heapGet(st, d, c.heapSort[d])
+	vv := c.heapGet(st, vh, c.heapSort[vh])
+	was := c.name("had", "(select (select "+dh+" "+m+") "+k+")", "Bool")
+	lh := f.mapLenHeap()
+	oldLen := "(select " + c.heapGet(st, lh, c.heapSort[lh]) + " " + m + ")"
+	c.heapSet(st, d, "(store "+dh+" "+m+" (store (select "+dh+" "+m+") "+k+" true))")
+	c.heapSet(st, vh, "(store "+vv+" "+m+" (store (select "+vv+" "+m+") "+k+" "+v+"))")
+	c.heapSet(st, lh, "(store "+c.heapGet(st, lh, c.heapSort[lh])+" "+m+" "+ite(was, oldLen, c.iadd(oldLen, c.idxLit(1)))+")")
 }
 
 func (w *World) builtinModel(key string) modelFn { return w.models[key] }
